@@ -14,7 +14,7 @@ import math
 import operator
 from copy import copy
 from collections.abc import Iterator
-from decimal import Decimal, DivisionByZero
+from decimal import Decimal, DivisionByZero, InvalidOperation
 from typing import cast, NoReturn
 
 import elementpath.aliases as ta
@@ -656,7 +656,7 @@ def evaluate__idiv_operator(self: XPathToken, context: ta.ContextType = None) ->
 
     try:
         result = op1 // op2
-    except (ZeroDivisionError, DivisionByZero):
+    except (ZeroDivisionError, DivisionByZero, InvalidOperation):
         if isinstance(context, XPathSchemaContext):
             return 1
         raise self.error('FOAR0001') from None
